@@ -242,6 +242,8 @@ pub struct Block {
     pub under_size: usize,
     pub under_align: usize,
     pub front: usize,
+    /// allocator instance the block came from
+    pub pool: u8,
 }
 
 #[derive(Clone, Copy, Debug, PartialEq, Eq, serde::Serialize, serde::Deserialize)]
